@@ -1,3 +1,4 @@
+//@@ include url_types
 // ===================== flate2 decoders, encoding_rs (opaque; behaviour ASSUMED, see C06/C18) =====================
 #[verifier::external_type_specification] #[verifier::external_body] #[verifier::accept_recursive_types(R)] pub struct ExGzDecoder<R>(GzDecoder<R>);
 #[verifier::external_type_specification] #[verifier::external_body] #[verifier::accept_recursive_types(R)] pub struct ExDeflateDecoder<R>(DeflateDecoder<R>);
@@ -20,9 +21,8 @@ pub fn vp_bufreader_new(s: BaseStream) -> (r: BufReader<BaseStream>)
 /// `headers.remove(TRANSFER_ENCODING);`
 #[verifier::external_body]
 pub fn vp_remove_te(h: &mut HeaderMap)
-    ensures hm_view(final(h)) == hm_view(old(h)).filter(|e: (Seq<u8>, HeaderValue)| e.0 != te_name())
+    ensures hm_view(final(h)) == without(hm_view(old(h)), te_name())
 { h.remove(TRANSFER_ENCODING); }
-pub assume_specification [<Url as Clone>::clone] (u: &Url) -> (r: Url) ensures r == *u;
 pub open spec fn head_bytes() -> Seq<u8> { seq![72u8, 69, 65, 68] }   // "HEAD"
 /// `m == Method::HEAD` / `m != Method::HEAD` (external associated const)
 #[verifier::external_body]
